@@ -116,12 +116,14 @@ def hier_case(rng, levels=None, last_all_atom=True, share_p=0.0, virtual_p=0.0):
                     kind = rng.choice(['$', '><'])
                     L = 'Q%d%d' % (lv, lab)
                     po = pair_orders[(min(grp[a], grp[b]), max(grp[a], grp[b]))]
-                    if pair_labels and len(po) > 1 and len(set(po)) == len(po):
+                    will_share = bool(share_p) and rng.random() < share_p and (grp[a], b) not in shared_into
+                    if pair_labels and not share_p and len(po) > 1 and len(set(po)) == len(po):
+                        # (never together with shared beads: a shared pair has no order that could tell two of them apart)
                         L = 'P%dx%dx%d' % (lv, min(grp[a], grp[b]), max(grp[a], grp[b]))
                         kind = '><'
                         if grp[a] > grp[b]:
                             a, b = b, a          # '>' always on the lower group: equal labels never pair the wrong way round
-                    if share_p and rng.random() < share_p and (grp[a], b) not in shared_into:
+                    if will_share:
                         shared_into.add((grp[a], b))     # one copy of a bead per group
                         # the group of `a` gets a copy b' of bead b, bonded to a; b' and b carry the '!' pair
                         bp = max(ext.nodes) + 1
